@@ -21,9 +21,9 @@ type OpenPlayer struct {
 	Bankroll  int64    `json:"bankroll"`
 	Part      bool     `json:"part"`
 	Positions []string `json:"positions"`
-	Fresh     bool     `json:"fresh"`  // got the seat (or re-bought from zero) after positions were first set and not dealt in since
+	Fresh     bool     `json:"fresh"`   // got the seat (or re-bought from zero) after positions were first set and not dealt in since
 	Waiting   bool     `json:"waiting"` // fresh, and the seat was strictly between button and big blind at that moment
-	Missed    int      `json:"missed"` // consecutive opened hands missed while seated-in with chips (this one included)
+	Missed    int      `json:"missed"`  // consecutive opened hands missed while seated-in with chips (this one included)
 }
 
 type OpenSetting struct {
@@ -323,6 +323,10 @@ func runOpen(opt Opts) error {
 		}
 	}
 	out := make([][]OpenCase, len(hists))
+	if ij, err := json.Marshal(hists); err == nil {
+		os.MkdirAll(opt.Out, 0o755)
+		os.WriteFile(opt.Out+"/inputs.json", ij, 0o644)
+	}
 	var wg sync.WaitGroup
 	sem := make(chan struct{}, 14)
 	for i := range hists {
